@@ -1009,3 +1009,40 @@ def selftest():
     if ident('C', True, 16383) != b'\xbf\xff\x7f' or ident('P', False, 30) != b'\xde':
         raise AssertionError('reference identifier vectors failed')
     return True
+
+
+# ------------------------------------------------------------------ single-node rewrites (C15)
+
+def reserialize(data, node, target=None, how=None, arg=None):
+    """Re-serialise the TLV tree under `node` (from walk) with minimal definite lengths, applying one rewrite
+    to the node `target`:  how = 'indef'  constructed node gets indefinite length;
+    'segment'  primitive string node becomes constructed with one or two segments (arg: is_bits);
+    'content'  primitive node gets the contents octets arg."""
+    if node.con:
+        body = b''.join(reserialize(data, k, target, how, arg) for k in node.kids)
+    else:
+        body = data[node.hdr_end:node.end]
+    if node is target:
+        if how == 'indef':
+            return ident(node.cls, True, node.num) + b'\x80' + body + b'\x00\x00'
+        if how == 'content':
+            body = arg
+        if how == 'segment':
+            is_bits = arg
+            segtag = ident('U', False, 3 if is_bits else 4)
+            if is_bits:
+                unused, payload = body[0], body[1:]
+                if len(payload) >= 2:
+                    h = len(payload) // 2
+                    parts = [bytes([0]) + payload[:h], bytes([unused]) + payload[h:]]
+                else:
+                    parts = [body]
+            else:
+                if len(body) >= 2:
+                    h = len(body) // 2
+                    parts = [body[:h], body[h:]]
+                else:
+                    parts = [body]
+            inner = b''.join(segtag + length(len(p)) + p for p in parts)
+            return ident(node.cls, True, node.num) + length(len(inner)) + inner
+    return ident(node.cls, node.con, node.num) + length(len(body)) + body
